@@ -2383,3 +2383,64 @@ func init() {
 	})
 	addDoc("C10", "R10p (= C04 R04i) candidate marking, delivery and rejection depend on the selection state only.")
 }
+
+func init() {
+	wrapRun("C14", func(c *core.Ctx) {
+		// R14i (= C13 R13b): a process-wide cache whose loader reads more than its key hands one schema's object to another
+		// (seed C14-11: the compiled-script cache keyed by the whitespace-normalised script)
+		if c.CountRule("R14i") == 0 {
+			importRules(c, "C13", map[string]string{"R13b": "R14i"})
+			c.Floor("R14i", 3, "process-wide caches")
+		}
+	})
+	wrapRun("C15", func(c *core.Ctx) {
+		// R15n (= C14 R14b): package-level state written after initialisation makes results depend on what ran before in
+		// the process (seed C15-12: custom functions cached by name across schemas)
+		if c.CountRule("R15n") == 0 {
+			importRules(c, "C14", map[string]string{"R14b": "R15n"})
+			c.Floor("R15n", 10, "package-level state on the run path")
+		}
+	})
+	wrapRun("C17", func(c *core.Ctx) {
+		// R17g (= C11 R11a): every node created for a token is attached below the element of that token — a node attached
+		// elsewhere (seed C17-10: namespace declarations hung under the document element) is not removed with the record.
+		// R17h (= C05 R05b): the matcher's wrap-up is only invoked where its error is handled (seed C17-11 re-created an
+		// ancestor group per record)
+		if c.CountRule("R17g") == 0 {
+			importRules(c, "C11", map[string]string{"R11a": "R17g"})
+			c.Floor("R17g", 2, "attribute creation of the XML reader")
+		}
+		if c.CountRule("R17h") == 0 {
+			importRules(c, "C05", map[string]string{"R05b": "R17h"})
+			c.Floor("R17h", 4, "matcher wrap-up calls of the two hierarchical readers")
+		}
+	})
+	wrapRun("C18", func(c *core.Ctx) {
+		// R18f (= C14 R14a): the declared encoding lives in the schema, which is shared by every transform created from it:
+		// no function reachable from NewTransform/Read stores into schema-owned objects (seed C18-11: a per-input override
+		// written into the shared header)
+		if c.CountRule("R18f") == 0 {
+			importRules(c, "C14", map[string]string{"R14a": "R18f"})
+			c.Floor("R18f", 1, "schema-owned types: no run-set store")
+		}
+	})
+	wrapRun("C20", func(c *core.Ctx) {
+		// R20i (= C13 R13a): the per-record result cache that memoises javascript results: key completeness, failed
+		// evaluations not stored (seeds C20-10, C20-11). R20j (= C12 R12b): pooled nodes are blank, so `_node` of a flat-file
+		// record carries nothing from an earlier JSON/XML transform (seed C20-12).
+		if c.CountRule("R20i") == 0 {
+			importRules(c, "C13", map[string]string{"R13a": "R20i"})
+			c.Floor("R20i", 20, "result-cache key completeness")
+		}
+		if c.CountRule("R20j") == 0 {
+			importRules(c, "C12", map[string]string{"R12b": "R20j"})
+			c.Floor("R20j", 5, "reset clears every field")
+		}
+	})
+	addDoc("C14", "R14i (= C13 R13b) cache loaders read nothing but their key.")
+	addDoc("C15", "R15n (= C14 R14b) no package-level state written after initialisation on the run path.")
+	addDoc("C17", "R17g (= C11 R11a) attribute nodes are attached to the element of their own token. R17h (= C05 R05b) the matcher's wrap-up error is handled wherever it is invoked.")
+	addDoc("C18", "R18f (= C14 R14a) no run-set store into schema-owned objects (the header with the declared encoding is one).")
+	addDoc("C20", "R20i (= C13 R13a) result-cache key completeness and error handling. R20j (= C12 R12b) pooled nodes are blank.")
+	addDoc("C13", "R13a ext.: the id interned for a new encoding is injective in it or a fresh UUID.")
+}
